@@ -92,10 +92,12 @@ namespace pika::execution {
           , aborted_(false)
           , id_(std::this_thread::get_id())
         {
+            PIKA_VERIF_POST("dag.new", this, 0, 0);
         }
 
         void default_agent::yield(char const* /* desc */)
         {
+            PIKA_VERIF_POST("dag.yield", this, 0, 0);
 #if defined(PIKA_WINDOWS)
             Sleep(0);
 #else
@@ -140,13 +142,19 @@ namespace pika::execution {
 
         void default_agent::suspend(char const* /* desc */)
         {
+            PIKA_VERIF_POST("dag.s.call", this, 0, 0);
+            PIKA_VERIF_POINT("dag.s.lock", this, 0, 0);
             std::unique_lock<std::mutex> l(mtx_);
+            PIKA_VERIF_EXIT("dag.s.ret", this, (running_ ? 1 : 0) | (aborted_ ? 2 : 0));
+            PIKA_VERIF_POST("dag.s.acq", this, running_, aborted_);
             PIKA_ASSERT(running_);
 
             running_ = false;
             resume_cv_.notify_all();
+            PIKA_VERIF_POST("dag.s.park", this, running_, aborted_);
 
             suspend_cv_.wait(l, [&] { return running_; });
+            PIKA_VERIF_POST("dag.s.woke", this, running_, aborted_);
 
             if (aborted_)
             {
@@ -157,31 +165,47 @@ namespace pika::execution {
 
         void default_agent::resume(char const* /* desc */)
         {
+            PIKA_VERIF_POST("dag.r.call", this, 0, 0);
+            PIKA_VERIF_POINT("dag.r.lock", this, 0, 0);
             std::unique_lock<std::mutex> l(mtx_);
+            PIKA_VERIF_EXIT("dag.r.ret", this, (running_ ? 1 : 0) | (aborted_ ? 2 : 0));
+            PIKA_VERIF_POST("dag.r.acq", this, running_, aborted_);
             resume_cv_.wait(l, [&] { return !running_; });
+            PIKA_VERIF_POST("dag.r.chk", this, running_, aborted_);
             running_ = true;
             suspend_cv_.notify_one();
+            PIKA_VERIF_POST("dag.r.go", this, running_, aborted_);
         }
 
         void default_agent::abort(char const* /* desc */)
         {
+            PIKA_VERIF_POST("dag.a.call", this, 0, 0);
+            PIKA_VERIF_POINT("dag.a.lock", this, 0, 0);
             std::unique_lock<std::mutex> l(mtx_);
+            PIKA_VERIF_EXIT("dag.a.ret", this, (running_ ? 1 : 0) | (aborted_ ? 2 : 0));
+            PIKA_VERIF_POST("dag.a.acq", this, running_, aborted_);
             resume_cv_.wait(l, [&] { return !running_; });
+            PIKA_VERIF_POST("dag.a.chk", this, running_, aborted_);
             running_ = true;
             aborted_ = true;
             suspend_cv_.notify_one();
+            PIKA_VERIF_POST("dag.a.go", this, running_, aborted_);
         }
 
         void default_agent::sleep_for(
             pika::chrono::steady_duration const& sleep_duration, char const* /* desc */)
         {
+            PIKA_VERIF_POST("dag.sleep", this, 0, 0);
             std::this_thread::sleep_for(sleep_duration.value());
+            PIKA_VERIF_POST("dag.slept", this, 0, 0);
         }
 
         void default_agent::sleep_until(
             pika::chrono::steady_time_point const& sleep_time, char const* /* desc */)
         {
+            PIKA_VERIF_POST("dag.sleep", this, 1, 0);
             std::this_thread::sleep_until(sleep_time.value());
+            PIKA_VERIF_POST("dag.slept", this, 1, 0);
         }
     }}    // namespace detail
 
